@@ -9,6 +9,9 @@
 //!   C12: f32 bits  -> from_f32 -> to_f32      must give back the identical bits (NaN: a NaN of the same sign)
 //!   C10: i32/u32 v -> from_i32 -> to_i32      must give back v, and Display must print v's own decimal text
 //!   C13: Bitstring32 bits -> to_f32 / to_f64  must agree with str::parse of the Display text (None iff that overflows)
+//!   C03: Bitstring32 bits -> Display -> try_parse_str  must be accepted, keep the class and sign, and be a fixed point
+//!        from then on; the same bytes through `Bitstring` must re-read to the same bytes
+//!   C15: the same 4 bytes held by Bitstring32, Bitstring and BigBitstring must print, classify and convert identically
 use crate::ops::{hex, ryu_text, Dec};
 use decstr::*;
 use std::panic::{catch_unwind, AssertUnwindSafe};
@@ -127,6 +130,58 @@ fn c13_one(bits: u32, out: &mut Vec<String>) {
     }
 }
 
+fn c03_one(bits: u32, out: &mut Vec<String>) {
+    let le = bits.to_le_bytes();
+    let ok = catch_unwind(AssertUnwindSafe(|| {
+        let d = Bitstring32::from_le_bytes(le);
+        let t = d.to_string();
+        let Ok(d2) = Bitstring32::try_parse_str(&t) else { return false };
+        let t2 = d2.to_string();
+        let Ok(d3) = Bitstring32::try_parse_str(&t2) else { return false };
+        let Some(Ok(y)) = <Bitstring as Dec>::try_le(&le) else { return false };
+        let Ok(y2) = Bitstring::try_parse_str(&y.to_string()) else { return false };
+        d2.as_le_bytes() == d3.as_le_bytes() && Dec::cls(&d) == Dec::cls(&d2) && t == t2 && y2.as_le_bytes() == d2.as_le_bytes()
+    }))
+    .unwrap_or(false);
+    if !ok {
+        out.push(format!("sweep-anomaly/roundtrip/b32\troundtrip b32 {}", hex(&le)));
+        out.push(format!("sweep-anomaly/roundtrip/dyn\troundtrip dyn {}", hex(&le)));
+    }
+}
+
+fn c15_one(bits: u32, out: &mut Vec<String>) {
+    let le = bits.to_le_bytes();
+    fn view<D: Dec>(le: &[u8]) -> Option<(String, [bool; 6], Option<Option<i128>>, Option<Option<i128>>, Option<Option<u64>>, Option<Option<u64>>)> {
+        let d = match D::from_le(le) {
+            Some(d) => d,
+            None => D::try_le(le)?.ok()?,
+        };
+        Some((d.to_string(), d.cls(), d.to_int("i64"), d.to_int("u8"), d.to_f("f64"), d.to_f("f32")))
+    }
+    let ok = catch_unwind(AssertUnwindSafe(|| {
+        let a = view::<Bitstring32>(&le);
+        let b = view::<Bitstring>(&le);
+        #[cfg(feature = "big")]
+        let c = view::<BigBitstring>(&le);
+        #[cfg(not(feature = "big"))]
+        let c = b.clone();
+        a.is_some() && a == b && b == c
+    }))
+    .unwrap_or(false);
+    if !ok {
+        for ty in ["b32", "dyn", "big"] {
+            out.push(format!("sweep-anomaly/format/{}\tformat {} {}", ty, ty, hex(&le)));
+            out.push(format!("sweep-anomaly/classify/{}\tclassify {} {}", ty, ty, hex(&le)));
+            for i in ["i64", "u8"] {
+                out.push(format!("sweep-anomaly/to_int/{}\tto_int {} {} {}", ty, ty, hex(&le), i));
+            }
+            for f in ["f64", "f32"] {
+                out.push(format!("sweep-anomaly/to_float/{}\tto_float {} {} {}", ty, ty, hex(&le), f));
+            }
+        }
+    }
+}
+
 pub fn run(p: &Plan) {
     // strides are primes, so that every residue class of every power of two is visited; the offset comes from the seed
     let mut report = vec![];
@@ -158,6 +213,12 @@ pub fn run(p: &Plan) {
             go("from_i32/u32->Display,to_i32/u32, Bitstring", if t { 3 } else { 211 }, &c10_one::<Bitstring>);
             #[cfg(feature = "big")]
             go("from_i32/u32->Display,to_i32/u32, BigBitstring", if t { 11 } else { 1009 }, &c10_one::<BigBitstring>);
+        }
+        "C03" => {
+            go("Bitstring32 -> Display -> try_parse_str: accepted, class kept, fixed point; same via Bitstring", if t { 1 } else { 211 }, &c03_one);
+        }
+        "C15" => {
+            go("same 4 bytes in Bitstring32/Bitstring/BigBitstring: Display, classes, to_i64, to_u8, to_f64, to_f32 agree", if t { 3 } else { 251 }, &c15_one);
         }
         "C13" => {
             go("Bitstring32 to_f32/to_f64 = str::parse(Display)", if t { 1 } else { 211 }, &c13_one);
